@@ -1438,7 +1438,7 @@ func checkC17(w *World, r *Report) {
 					if f := c.StaticCallee(); f != nil {
 						p = f.String()
 					}
-					if strings.HasSuffix(p, "Uint32).Load") || p == "fmt.Errorf" {
+					if strings.HasSuffix(p, "Uint32).Load") || p == "fmt.Errorf" || p == "errors.New" {
 						continue
 					}
 					if !sg.OnlyVia(eq[initK], i) {
